@@ -8,6 +8,7 @@ COMMON_TB = [
 REGISTRY = {
     "C14": {
         "props": "Props/C14.v", "pkg": "c14", "check_module": "Check.StoreCheck",
+        "coq_files": ["Model/Store.v", "Proofs/StoreProofs.v", "Check/StoreCheck.v", "Props/C14.v"],
         "n_quick": 300, "n_thorough": 9600, "shards_thorough": 16,
         "trusted_base": COMMON_TB + [
             "datastore contract: a returned Put/Commit is durable, a batch commit is atomic, path.Clean is the identity on clean metadata keys",
@@ -22,3 +23,14 @@ REGISTRY = {
     },
 }
 NOT_APPLICABLE = {}
+
+# per-property entries live in checks/reg_cXX.py (each defines ENTRY = {"Cxx": {...}} and optionally NA = {...})
+import glob as _g, os as _o, importlib.util as _u
+for _f in sorted(_g.glob(_o.path.join(_o.path.dirname(_o.path.abspath(__file__)), "reg_*.py"))):
+    _s = _u.spec_from_file_location(_o.path.basename(_f)[:-3], _f)
+    _m = _u.module_from_spec(_s)
+    _s.loader.exec_module(_m)
+    for _k, _v in getattr(_m, "ENTRY", {}).items():
+        _v.setdefault("trusted_base", [])
+        REGISTRY[_k] = _v
+    NOT_APPLICABLE.update(getattr(_m, "NA", {}))
